@@ -59,7 +59,7 @@ TrReturn ==
   /\ IsEv("return") /\ result # "none"
   /\ (Trace[l].ok <=> result = "ok")
   /\ (Trace[l].ok => ToSet(Trace[l].bits) = bits)
-  /\ (~Trace[l].ok => "Ready" \notin ToSet(Trace[l].bits))
+  /\ (~Trace[l].ok => ("Ready" \in ToSet(Trace[l].bits) => "Ready" \in bits))
   /\ UNCHANGED vars
 
 (* steps of the session that leave no event of their own *)
